@@ -505,19 +505,31 @@ def robust(ctx, harness, qfile):
     obs = vlib.read_ndjson(obsf)
     if len(obs) != len(allrows):
         raise vlib.MachineryError("harness returned %d observations for %d robustness cases" % (len(obs), len(allrows)))
+    queries = json.load(open(qfile))
     accepted = collections.Counter()
+    hang_confirmed = {}
+    skipped = 0
     for (row, cls, mut), o in zip(allrows, obs):
+        if o.get("accept") == "skipped":
+            skipped += 1
+            continue
         ctx.count(1, "%s:%s%s" % (cls["input_kind"], cls["mutation"], ("/" + cls["under"]) if "under" in cls else ""))
         accepted[(row["k"], bool(o.get("accept")))] += 1
-        if o.get("hang") and not confirm_hang(ctx, harness, qfile, row):
-            ctx.notes.append("a watchdog timeout did not reproduce when the input was run alone: " + row["hex"][:80])
-        elif o.get("hang"):
+        hang = False
+        if o.get("hang"):
+            hk = json.dumps(cls, sort_keys=True) + o["stage"]
+            if hk not in hang_confirmed:      # one confirmation run per class (a confirmation costs the watchdog time)
+                hang_confirmed[hk] = confirm_hang(ctx, harness, qfile, row)
+            hang = hang_confirmed[hk]
+            if not hang:
+                ctx.notes.append("a watchdog timeout did not reproduce when the input was run alone: " + row["hex"][:80])
+        if hang:
             cl = dict(cls)
             cl["stage"] = stage_class(o["stage"])
             cl["outcome"] = "hang"
             raw = bytes.fromhex(row["hex"])
             if ctx.violation(cl, {"k": row["k"], "root": row.get("root"), "hex": row["hex"], "input": raw[:200].decode("latin-1"),
-                                  "mut": mut},
+                                  "mut": mut, "queries": queries},
                              {"hang": True, "stage": o["stage"]}, "the call returns (a mask or an error)",
                              "%s input %r: %s does not return (45 s watchdog, twice)" % (cls["input_kind"], raw[:80], o["stage"])):
                 nviol += 1
@@ -527,15 +539,19 @@ def robust(ctx, harness, qfile):
             cl["stage"] = stage_class(o["stage"])
             raw = bytes.fromhex(row["hex"])
             shown = raw[:200].decode("latin-1") + ("...(%d bytes)" % len(raw) if len(raw) > 200 else "")
-            if ctx.violation(cl, {"k": row["k"], "root": row.get("root"), "hex": row["hex"] if len(raw) <= 4096 else None,
-                                  "input": shown, "mut": mut},
+            if ctx.violation(cl, {"k": row["k"], "root": row.get("root"), "hex": row["hex"] if len(raw) <= 65536 else None,
+                                  "input": shown, "mut": mut, "queries": queries},
                              {"panic": first, "stage": o["stage"]}, "an error or a mask, never a panic",
                              "%s input %r makes %s panic: %s" % (cls["input_kind"], shown[:80], o["stage"], first)):
                 nviol += 1
+    if skipped:
+        if not any(hang_confirmed.values()):
+            raise vlib.MachineryError("%d robustness inputs were skipped after watchdog timeouts that do not reproduce" % skipped)
+        ctx.notes.append("%d robustness inputs not run: the harness stops after 24 hanging calls" % skipped)
     for k in ("path", "json"):
         if not accepted[(k, True)] or not accepted[(k, False)]:
             raise vlib.MachineryError("vacuous robustness universe: %s inputs are all accepted or all rejected" % k)
-    ctx.traces_validated += len(allrows)
+    ctx.traces_validated += len(allrows) - skipped
     if allrows:
         ctx.sample({"robust_input": bytes.fromhex(allrows[len(allrows) // 3][0]["hex"])[:120].decode("latin-1"),
                     "class": allrows[len(allrows) // 3][1], "observation": obs[len(allrows) // 3]})
@@ -638,8 +654,10 @@ def replay(ctx, harness, rp):
     case = rp["case"]
     if case["k"] in ("path", "json"):
         qf = ctx.path("q-replay.json")
+        if not case.get("hex"):
+            raise vlib.MachineryError("the input of this case is too long to be stored in the replay file; re-run the tier")
         with open(qf, "w") as fh:
-            json.dump({"R": {"walks": [[["f", 1]], [["f", 2], ["f", 1]], [["f", 3], ["i", 0], ["f", 1]]], "pims": ["$.x", "$.s.a"]}}, fh)
+            json.dump(case.get("queries") or {"R": {"walks": [[["f", 1]]], "pims": ["$.x", "$.*"]}}, fh)
         casef, obsf = ctx.path("rcases.ndjson"), ctx.path("robs.ndjson")
         vlib.write_ndjson(casef, [{"k": case["k"], "root": case.get("root") or "R", "hex": case["hex"]}])
         ctx.run([harness, "mask", casef, obsf], env={"VERIF_MASK_Q": qf})
